@@ -48,6 +48,7 @@ type tmpl struct {
 	// generated families (gen.go)
 	Family  string   // "" for the hand-written templates
 	Pre     string   // class / function definitions placed before the handler closure
+	Use     string   // use (...) clause of the handler closure (captures of set-up variables)
 	Paths   []string // request k goes to Paths[k % len] (default /p)
 	Dims    []int    // position in the family's product, for the reduction of failing templates
 	ThrowOK bool     // a request served alone may end in its own uncaught exception "throw:Exception:<n>"
@@ -107,7 +108,7 @@ func script(t tmpl) string {
 	if t.Server != "" {
 		return t.Server + "\n"
 	}
-	return t.Pre + "$h = function($r, $w) {\n  " + strings.ReplaceAll(t.Body, "@VIEW@", viewFile()) + "\n};\n"
+	return t.Pre + "$h = function($r, $w) " + t.Use + "{\n  " + strings.ReplaceAll(t.Body, "@VIEW@", viewFile()) + "\n};\n"
 }
 
 func request(t tmpl, k int) *nh.Request {
@@ -236,12 +237,16 @@ type scenario struct {
 	Tmpl     string   `json:"tmpl"`
 	N        int      `json:"n"` // number of concurrent requests
 	Bound    int      `json:"bound"`
-	GateOnly bool     `json:"gate_only"` // only gates and sync ops are choice points
+	GateOnly bool     `json:"gate_only"`     // only gates and sync ops are choice points
+	Seq      bool     `json:"seq,omitempty"` // no concurrency: the N requests one after the other, every order
 	Choices  []int    `json:"choices,omitempty"`
 	Sites    []string `json:"sites,omitempty"`
 }
 
 func (s scenario) String() string {
+	if s.Seq {
+		return fmt.Sprintf("%s x%d sequential", s.Tmpl, s.N)
+	}
 	g := "accesses"
 	if s.GateOnly {
 		g = "gates"
@@ -250,10 +255,22 @@ func (s scenario) String() string {
 }
 
 var byName map[string]tmpl
+var dimIndex map[string]string // family + dimension vector -> template name
+
+// probed on the unchanged tree: these call shapes fail for one request alone (not valid in this language)
+var argsInvalid = map[string]bool{}
 
 func init() {
 	templates = append(templates, carryTemplates()...)
 	templates = append(templates, routesTemplates()...)
+	templates = append(templates, argsTemplates(argsInvalid)...)
+	templates = append(templates, captureTemplates()...)
+	dimIndex = map[string]string{}
+	for _, t := range templates {
+		if t.Family != "" {
+			dimIndex[t.Family+fmt.Sprint(t.Dims)] = t.Name
+		}
+	}
 	byName = make(map[string]tmpl, len(templates))
 	for _, t := range templates {
 		if _, dup := byName[t.Name]; dup {
@@ -391,6 +408,10 @@ func exploreOne(w *pool.W, sc scenario) {
 			return
 		}
 	}
+	if sc.Seq {
+		sequential(w, sc, t, want, solos)
+		return
+	}
 	setup, get := build(sc)
 	outcomes := map[string]bool{}
 	seen := map[string]bool{}
@@ -466,6 +487,70 @@ func exploreOne(w *pool.W, sc scenario) {
 	w.Emit(rec{Kind: "done", Scenario: sc, Execs: stt.Execs, Complete: stt.Complete, Stop: stt.StopReason, Outcomes: oc, Sites: stt.Relevant, Solo: solos})
 }
 
+// perms lists every order of 0..n-1.
+func perms(n int) [][]int {
+	if n == 1 {
+		return [][]int{{0}}
+	}
+	var out [][]int
+	for _, p := range perms(n - 1) {
+		for i := 0; i <= len(p); i++ {
+			q := append(append(append([]int{}, p[:i]...), n-1), p[i:]...)
+			out = append(out, q)
+		}
+	}
+	return out
+}
+
+// serveInOrder serves the requests one after the other on ONE fresh server (no overlap at all).
+func serveInOrder(t tmpl, order []int) []resp {
+	sv := newServer(t)
+	defer sv.sess.Close()
+	out := make([]resp, len(order))
+	for _, k := range order {
+		if sv.err != "" {
+			out[k] = resp{Err: sv.err}
+			continue
+		}
+		out[k] = sv.serve(k)
+	}
+	return out
+}
+
+// sequential: clause "a later request is not coloured by an earlier one" - every order of the N
+// requests, each response compared with the same request served alone on a fresh server.
+func sequential(w *pool.W, sc scenario, t tmpl, want []resp, solos []string) {
+	outcomes := map[string]bool{}
+	failed := false
+	ps := perms(sc.N)
+	for _, order := range ps {
+		got := serveInOrder(t, order)
+		var os []string
+		for _, r := range got {
+			os = append(os, r.String())
+		}
+		outcomes[strings.Join(os, " ; ")] = true
+		for k, r := range got {
+			if !r.same(want[k]) && !failed {
+				failed = true
+				cs := sc
+				cs.Choices = order
+				w.Emit(rec{Kind: "fail", Scenario: sc, Key: "sequential:" + sc.Tmpl, Clause: "response-equals-solo-sequential", Size: sc.N * 1000, Case: cs,
+					Detail: fmt.Sprintf("requests served one after the other in order %v (no overlap): request %d got %s but alone on a fresh server it gets %s\nhandler: %s", order, k+1, r.String(), want[k].String(), script(t))})
+			}
+		}
+	}
+	var oc []string
+	for o := range outcomes {
+		oc = append(oc, o)
+	}
+	sort.Strings(oc)
+	if len(oc) > 2 {
+		oc = oc[:2]
+	}
+	w.Emit(rec{Kind: "done", Scenario: sc, Execs: int64(len(ps)), Complete: true, Outcomes: oc, Solo: solos})
+}
+
 // scenariosFor lists the scenarios (granularity x requests x preemption bound) of one template.
 func scenariosFor(t tmpl, quick bool) []scenario {
 	var scs []scenario
@@ -475,7 +560,23 @@ func scenariosFor(t tmpl, quick bool) []scenario {
 	// templates that read superglobals share one cached object between requests (a listed
 	// finding): its mutex makes the interleaving space large, so they get smaller bounds
 	heavy := strings.Contains(t.Body, "$_")
+	// every template: the requests one after the other, every order (3 requests: 6 orders)
+	scs = append(scs, scenario{Tmpl: t.Name, N: 3, Seq: true})
 	switch {
+	case t.Family == "args" || t.Family == "capture":
+		// 4-8 gates per request (args: the call site is evaluated twice)
+		if quick {
+			add(2, 3, true)
+			add(3, 1, true)
+			if !t.Light {
+				add(2, 1, false)
+			}
+		} else {
+			add(2, 6, true)
+			add(3, 2, true)
+			add(2, 2, false)
+			add(3, 1, false)
+		}
 	case t.Family == "carry":
 		// 3-5 gates per request, plus the VM's class-table RLock at every `new` / `::` (a
 		// synchronisation operation is a choice point at gate granularity too): unbounded, two
@@ -710,6 +811,9 @@ func main() {
 					g = "accesses"
 				}
 				k := fmt.Sprintf("%s x%d %s pb=%d", t.Family, r.Scenario.N, g, r.Scenario.Bound)
+				if r.Scenario.Seq {
+					k = fmt.Sprintf("%s x%d sequential", t.Family, r.Scenario.N)
+				}
 				fs := fam[k]
 				if fs == nil {
 					fs = &famStat{}
@@ -723,13 +827,13 @@ func main() {
 				if r.Complete {
 					fs.Complete++
 				}
-				if t.Dims[len(t.Dims)-1] == 0 && r.Scenario.N == 2 && r.Scenario.GateOnly && (t.Family == "carry" || (t.Dims[2] == 0 && t.Dims[3] == 4 && t.Dims[0] == t.Dims[1])) {
+				if t.Dims[len(t.Dims)-1] == 0 && r.Scenario.N == 2 && r.Scenario.GateOnly && !r.Scenario.Seq && (t.Family == "carry" || t.Family == "args" || t.Family == "capture" || (t.Dims[2] == 0 && t.Dims[3] == 4 && t.Dims[0] == t.Dims[1])) {
 					per[r.Scenario.String()] = map[string]any{"executions": r.Execs, "complete": r.Complete, "solo": r.Solo, "outcomes": r.Outcomes}
 				}
 				break
 			}
 			per[r.Scenario.String()] = map[string]any{"executions": r.Execs, "complete": r.Complete, "choice_sites": r.Sites, "solo": r.Solo, "outcomes": r.Outcomes}
-			if r.Scenario.N == 2 && r.Scenario.GateOnly {
+			if r.Scenario.N == 2 && r.Scenario.GateOnly && !r.Scenario.Seq {
 				c.Sample(map[string]any{"scenario": r.Scenario.String(), "handler": findT(r.Scenario.Tmpl).Body, "solo_responses": r.Solo, "executions": r.Execs})
 			}
 		}
@@ -778,6 +882,20 @@ func replay(c *ev.Check) {
 		return
 	}
 	t := findT(sc.Tmpl)
+	if sc.Seq {
+		got := serveInOrder(t, sc.Choices)
+		fmt.Println("handler:", script(t))
+		fmt.Println("order:", sc.Choices)
+		for k, r := range got {
+			exp := solo(t, k)
+			fmt.Printf("request %d in sequence: %s\nrequest %d alone:       %s\n", k+1, r.String(), k+1, exp.String())
+			if !r.same(exp) {
+				c.Fail("sequential:"+sc.Tmpl, "response-equals-solo-sequential", 0, sc, "replayed")
+			}
+		}
+		c.Finish(1, 1, 1, "replay")
+		return
+	}
 	setup, get := build(sc)
 	cfg := &sched.Config{Name: sc.String(), Bound: -1, Setup: setup, GateOnly: sc.GateOnly, MaxSteps: 5000}
 	var first string
